@@ -45,7 +45,8 @@ Theorem confined : forall c evs s e out f,
   In (s, e, out) (trace c init_state evs) -> In f out -> forged c f = true ->
   caller_forged c e = true \/
   hunted s (fedst f) = true \/
-  (exists i lp, e = Send i /\ nth_error (loops s) i = Some lp /\ armed_pc c (fedst f) (lpc lp) = true).
+  (exists i lp, e = Send i /\ nth_error (loops s) i = Some lp /\ armed_pc c (fedst f) (lpc lp) = true) \/
+  (exists k, e = RxReply k /\ nth_error (rxq s) k = Some f).
 Proof.
   intros c evs s e out f Hc Hin Hf Hfo.
   apply trace_in in Hin as [s' Hs]. simpl in Hs. eapply confined_step; eauto.
@@ -59,7 +60,10 @@ Definition forged_to (c : cfg) (m : mac) (out : list frame) : nat :=
 
 Definition armedp (c : cfg) (m : mac) (lp : loop) : bool := armed_pc c m (lpc lp).
 
-Lemma armed_count c m s : armed c m s = count (armedp c m) (loops s).
+Definition armedL (c : cfg) (m : mac) (s : state) : nat := count (armedp c m) (loops s).
+Definition armedQ (c : cfg) (m : mac) (s : state) : nat := count (forged_for c m) (rxq s).
+
+Lemma armed_split c m s : armed c m s = (armedL c m s + armedQ c m s)%nat.
 Proof. reflexivity. Qed.
 
 Lemma forged_to_nil c m : forged_to c m [] = 0%nat.
@@ -75,85 +79,94 @@ Proof.
 Qed.
 
 Local Arguments armed : simpl never.
+Local Arguments armedL : simpl never.
+Local Arguments armedQ : simpl never.
 Local Arguments forged_to : simpl never.
 Local Arguments count : simpl never.
+
+(* the loops' part: every event except the write of a queued reply *)
+Lemma step_bound_L : forall c s e m,
+  cfg_ok c -> hunted s m = false -> is_start_of m e = false -> caller_forged c e = false ->
+  (forall k, e <> RxReply k) ->
+  (forged_to c m (snd (step c s e)) + armedL c m (fst (step c s e)) <= armedL c m s)%nat.
+Proof.
+  intros c s e m Hc Hh Hst Hcf Hnr.
+  destruct (core_event e) eqn:Hce.
+  - destruct (step_core c s e Hce) as [_ [H2 _]]. unfold armedL. rewrite H2.
+    rewrite forged_to_none; [lia|]. intros f Hin Hf.
+    rewrite (core_out_not_forged c s e f Hc Hce Hnr Hcf Hin) in Hf. discriminate.
+  - destruct e; try discriminate; simpl in *; unfold armedL; simpl; rewrite ?forged_to_nil.
+    + (* StartHunt *) unfold start_hunt. destruct (hunt_has (amac a) (hunt s)); simpl; rewrite ?forged_to_nil; [lia|].
+      rewrite count_app. replace (b2n (armedp c m (mkLoop a PTop))) with 0%nat by reflexivity. lia.
+    + lia.
+    + lia.
+    + (* Lookup *) unfold lookup. destruct (nth_error (loops s) i) as [lp|] eqn:Hl; simpl; rewrite ?forged_to_nil; [|lia].
+      destruct (lpc lp) eqn:Hp; simpl; rewrite ?forged_to_nil; try lia;
+        pose proof (count_set_pc (armedp c m) _ _ _ (PLooked (hunt_find (amac (laddr lp)) (hunt s))) Hl) as Hcnt;
+        unfold armedp in *; simpl in Hcnt; rewrite Hp in Hcnt; simpl in Hcnt;
+        (destruct (hunt_find (amac (laddr lp)) (hunt s)) as [t|] eqn:Hf; simpl in Hcnt; [|lia]);
+        (destruct (amac t =? m) eqn:Et; simpl in Hcnt; [|lia]);
+        exfalso; apply hunt_find_some in Hf as [Hin _]; unfold hunted in Hh; rewrite hunt_has_false in Hh;
+        apply (Hh t Hin); lia.
+    + (* Check *) unfold check. destruct (nth_error (loops s) i) as [lp|] eqn:Hl; simpl; rewrite ?forged_to_nil; [|lia].
+      destruct (lpc lp) eqn:Hp; simpl; rewrite ?forged_to_nil; try lia.
+      match goal with |- context [set_pc i ?p (loops s)] =>
+        pose proof (count_set_pc (armedp c m) _ _ _ p Hl) as Hcnt end.
+      unfold armedp in *. simpl in Hcnt. rewrite Hp in Hcnt.
+      destruct found as [t|]; destruct (closed s); simpl in Hcnt; try lia.
+      * rewrite announce_forged in Hcnt. simpl in Hcnt. lia.
+      * rewrite restore_not_forged in Hcnt by auto. simpl in Hcnt. lia.
+    + (* Send *) unfold send. destruct (nth_error (loops s) i) as [lp|] eqn:Hl; simpl; rewrite ?forged_to_nil; [|lia].
+      destruct (lpc lp) eqn:Hp; simpl; rewrite ?forged_to_nil; try lia.
+      destruct (wr s f) as [[s1 o] ok] eqn:Hw. destruct (wr_state _ _ _ _ _ Hw) as [_ [W2 _]]. simpl. rewrite W2.
+      assert (Ho : (forged_to c m o <= b2n (forged c f && (N.eqb (fedst f) m)))%nat).
+      { destruct (wr_cases s f) as [[E _]|[k [_ E]]]; rewrite E in Hw; inversion Hw; subst; unfold forged_to, count; simpl.
+        - destruct (forged c f && (fedst f =? m)); simpl; lia.
+        - lia. }
+      destruct cont; simpl;
+        (match goal with |- context [set_pc i ?p (loops s)] =>
+           pose proof (count_set_pc (armedp c m) _ _ _ p Hl) as Hcnt end);
+        unfold armedp in *; simpl in Hcnt; rewrite Hp in Hcnt; simpl in Hcnt; lia.
+    + lia.
+Qed.
+
+(* the queue's part: a reply is queued only for a hunted MAC *)
+Lemma step_bound_Q : forall c s e m,
+  hunted s m = false -> (forall k, e <> RxReply k) -> (armedQ c m (fst (step c s e)) <= armedQ c m s)%nat.
+Proof.
+  intros c s e m Hh Hnr. unfold armedQ.
+  assert (Hq : forall p, (count (forged_for c m) (rxq (fst (rx_arp c s p))) <= count (forged_for c m) (rxq s))%nat).
+  { intros p. destruct (rx_arp_queue c s p) as [E|[Hp E]]; rewrite E; [lia|].
+    rewrite count_app. unfold forged_for at 2, spoof_reply. simpl.
+    destruct (psmac p =? m) eqn:Q; [|rewrite andb_false_r; simpl; lia].
+    assert (psmac p = m) by lia. subst. congruence. }
+  pose proof (step_rxq c s e) as G.
+  destruct e as [a| |m0| |i|i|i|p|kr|et b|m1 o|kf|ip|dst ip|ip|dst ip|dst sn tg|dst sn tg| |j|j|ip n| ];
+    try (rewrite G; lia).
+  - apply Hq.
+  - exfalso. apply (Hnr kr). reflexivity.
+  - destruct (rx_raw_cases c s et b) as [E|[p E]]; simpl in E; simpl; rewrite E; [simpl; lia|apply Hq].
+Qed.
 
 Lemma step_bound : forall c s e m,
   cfg_ok c -> hunted s m = false -> is_start_of m e = false -> caller_forged c e = false ->
   (forged_to c m (snd (step c s e)) + armed c m (fst (step c s e)) <= armed c m s)%nat.
 Proof.
-  intros c s e m Hc Hh Hst Hcf.
-  assert (Hnone : forall out, (forall f, In f out -> forged c f = true -> hunted s (fedst f) = true) ->
-                              forged_to c m out = 0%nat).
-  { intros out H. apply forged_to_none. intros f Hin Hf Heq. specialize (H f Hin Hf). congruence. }
-  destruct e; simpl in *; rewrite ?armed_count, ?forged_to_nil; simpl.
-  - (* StartHunt *) unfold start_hunt. destruct (hunt_has (amac a) (hunt s)); simpl; rewrite ?forged_to_nil; [lia|].
-    rewrite count_app. replace (b2n (armedp c m (mkLoop a PTop))) with 0%nat by reflexivity. lia.
-  - lia. - lia. - lia.
-  - (* Lookup *) unfold lookup. destruct (nth_error (loops s) i) as [lp|] eqn:Hl; simpl; [|lia].
-    destruct (lpc lp) eqn:Hp; simpl; rewrite ?armed_count, ?forged_to_nil; simpl; try lia.
-    + pose proof (count_set_pc (armedp c m) _ _ _ (PLooked (hunt_find (amac (laddr lp)) (hunt s))) Hl) as Hcnt.
-      unfold armedp in *. simpl in Hcnt. rewrite Hp in Hcnt. simpl in Hcnt.
-      destruct (hunt_find (amac (laddr lp)) (hunt s)) as [t|] eqn:Hf; simpl in Hcnt; [|lia].
-      destruct (amac t =? m) eqn:Et; simpl in Hcnt; [|lia].
-      exfalso. apply hunt_find_some in Hf as [Hin _]. unfold hunted in Hh. rewrite hunt_has_false in Hh.
-      apply (Hh t Hin). lia.
-    + pose proof (count_set_pc (armedp c m) _ _ _ (PLooked (hunt_find (amac (laddr lp)) (hunt s))) Hl) as Hcnt.
-      unfold armedp in *. simpl in Hcnt. rewrite Hp in Hcnt. simpl in Hcnt.
-      destruct (hunt_find (amac (laddr lp)) (hunt s)) as [t|] eqn:Hf; simpl in Hcnt; [|lia].
-      destruct (amac t =? m) eqn:Et; simpl in Hcnt; [|lia].
-      exfalso. apply hunt_find_some in Hf as [Hin _]. unfold hunted in Hh. rewrite hunt_has_false in Hh.
-      apply (Hh t Hin). lia.
-  - (* Check *) unfold check. destruct (nth_error (loops s) i) as [lp|] eqn:Hl; simpl; [|lia].
-    destruct (lpc lp) eqn:Hp; simpl; rewrite ?armed_count, ?forged_to_nil; simpl; try lia.
-    match goal with |- context [set_pc i ?p (loops s)] =>
-      pose proof (count_set_pc (armedp c m) _ _ _ p Hl) as Hcnt end.
-    unfold armedp in *. simpl in Hcnt. rewrite Hp in Hcnt.
-    destruct found as [t|]; destruct (closed s); simpl in Hcnt; try lia.
-    + rewrite announce_forged in Hcnt. simpl in Hcnt. lia.
-    + rewrite restore_not_forged in Hcnt by auto. simpl in Hcnt. lia.
-  - (* Send *) unfold send. destruct (nth_error (loops s) i) as [lp|] eqn:Hl; simpl; [|lia].
-    destruct (lpc lp) eqn:Hp; simpl; rewrite ?armed_count, ?forged_to_nil; simpl; try lia.
-    destruct (wr s f) as [[s1 o] ok] eqn:Hw. destruct (wr_state _ _ _ _ _ Hw) as [_ [W2 _]]. simpl.
-    rewrite ?armed_count. simpl. rewrite W2.
-    assert (Ho : (forged_to c m o <= b2n (forged c f && (N.eqb (fedst f) m)))%nat).
-    { destruct (wr_cases s f) as [[E _]|[k [_ E]]]; rewrite E in Hw; inversion Hw; subst; unfold forged_to, count; simpl.
-      - destruct (forged c f && (fedst f =? m)); simpl; lia.
-      - lia. }
-    destruct cont, ok; simpl;
-      (match goal with |- context [set_pc i ?p (loops s)] =>
-         pose proof (count_set_pc (armedp c m) _ _ _ p Hl) as Hcnt end);
-      unfold armedp in *; simpl in Hcnt; rewrite Hp in Hcnt; simpl in Hcnt; lia.
-  - (* RxArp *) destruct (rx_arp_state c s p) as [_ [H2 _]]. rewrite H2.
-    rewrite Hnone; [lia|]. intros f Hin Hf. eapply rx_arp_confined; eauto.
-  - (* RxRaw *) destruct (rx_raw_cases c s ethertype payload) as [E|[p E]]; simpl in E; rewrite E; simpl; [lia|].
-    destruct (rx_arp_state c s p) as [_ [H2 _]]. rewrite H2.
-    rewrite Hnone; [lia|]. intros f Hin Hf. eapply rx_arp_confined; eauto.
-  - lia. - lia.
-  - destruct (wr2_state s (request_to c MAC_BCAST ip)) as [_ [H2 _]]. rewrite H2.
-    rewrite forged_to_none; [lia|]. intros f Hin Hf. apply wr2_out in Hin. subst.
-    rewrite request_to_not_forged in Hf by auto. discriminate.
-  - destruct (wr2_state s (request_to c dst ip)) as [_ [H2 _]]. rewrite H2.
-    rewrite forged_to_none; [lia|]. intros f Hin Hf. apply wr2_out in Hin. subst.
-    rewrite request_to_not_forged in Hf by auto. discriminate.
-  - destruct (wr2_state s (probe_frame c ip)) as [_ [H2 _]]. rewrite H2.
-    rewrite forged_to_none; [lia|]. intros f Hin Hf. apply wr2_out in Hin. subst.
-    rewrite probe_frame_not_forged in Hf by auto. discriminate.
-  - destruct (wr2_state s (announce_ip c dst ip)) as [_ [H2 _]]. rewrite H2.
-    rewrite forged_to_none; [lia|]. intros f Hin Hf. apply wr2_out in Hin. subst.
-    unfold forged, announce_ip in Hf. simpl in Hf. apply andb_true_iff in Hf as [Hf _]. congruence.
-  - destruct (wr2_state s (request_raw dst sender target)) as [_ [H2 _]]. rewrite H2.
-    rewrite forged_to_none; [lia|]. intros f Hin Hf. apply wr2_out in Hin. subst.
-    unfold forged, request_raw in Hf. simpl in Hf. congruence.
-  - destruct (wr2_state s (reply_raw dst sender target)) as [_ [H2 _]]. rewrite H2.
-    rewrite forged_to_none; [lia|]. intros f Hin Hf. apply wr2_out in Hin. subst.
-    unfold forged, reply_raw in Hf. simpl in Hf. congruence.
-  - destruct (scan_go_spec c (scan_ips c) s) as [H0 [_ [H2 _]]]. rewrite H2.
-    rewrite forged_to_none; [lia|]. intros f Hin Hf. destruct (H0 f Hin) as [ip ->].
-    rewrite request_to_not_forged in Hf by auto. discriminate.
-  - destruct (whois_go_spec c ip (Nat.min tries 3) s) as [H0 [_ [H2 _]]]. rewrite H2.
-    rewrite forged_to_none; [lia|]. intros f Hin Hf. rewrite (H0 f Hin) in Hf.
-    rewrite request_to_not_forged in Hf by auto. discriminate.
+  intros c s e m Hc Hh Hst Hcf. rewrite !armed_split.
+  destruct e as [a| |m0| |i|i|i|p|kr|et b|m1 o|kf|ip|dst ip|ip|dst ip|dst sn tg|dst sn tg| |j|j|ip n| ];
+    try (match goal with |- context [step c s ?ev] =>
+           pose proof (step_bound_L c s ev m Hc Hh Hst Hcf ltac:(intros k0; discriminate)) as B1;
+           pose proof (step_bound_Q c s ev m Hh ltac:(intros k0; discriminate)) as B2 end; lia).
+  (* RxReply kr *)
+  destruct (rx_reply_spec s kr) as [H0 [_ [H2 [_ [_ H6]]]]]. simpl.
+  unfold armedL, armedQ. rewrite H2, H6.
+  destruct (nth_error (rxq s) kr) as [f|] eqn:Hk.
+  - pose proof (count_remove_nth (forged_for c m) (rxq s) kr f Hk) as Hcnt.
+    assert (Ho : (forged_to c m (snd (rx_reply s kr)) <= b2n (forged_for c m f))%nat).
+    { unfold rx_reply. rewrite Hk. destruct (wr_cases s f) as [[E _]|[k0 [_ E]]]; rewrite E; simpl;
+        unfold forged_to, count; simpl; [unfold forged_for; destruct (forged c f && (fedst f =? m)); simpl; lia|lia]. }
+    lia.
+  - unfold rx_reply. rewrite Hk. simpl. unfold forged_to, count. simpl. lia.
 Qed.
 
 (* total number of forged frames addressed to m that the handler emits on its own along a run *)
@@ -177,13 +190,11 @@ Proof.
   destruct (caller_forged c e) eqn:Hcf.
   - (* the caller's own forgery is not counted; the potential does not grow *)
     assert (Hle : (armed c m s1 <= armed c m s)%nat).
-    { destruct e; try discriminate; simpl in Hs.
-      - destruct (wr2_state s (announce_ip c dst ip)) as [_ [H _]]. rewrite Hs in H. simpl in H.
-        unfold armed. rewrite H. lia.
-      - destruct (wr2_state s (request_raw dst sender target)) as [_ [H _]]. rewrite Hs in H. simpl in H.
-        unfold armed. rewrite H. lia.
-      - destruct (wr2_state s (reply_raw dst sender target)) as [_ [H _]]. rewrite Hs in H. simpl in H.
-        unfold armed. rewrite H. lia. }
+    { assert (Hce : core_event e = true) by (destruct e; try discriminate; reflexivity).
+      destruct (step_core c s e Hce) as [_ [HL _]]. pose proof (step_rxq c s e) as HQ.
+      rewrite Hs in HL. simpl in HL.
+      assert (HQ' : rxq s1 = rxq s) by (destruct e; try discriminate; rewrite Hs in HQ; exact HQ).
+      unfold armed. rewrite HL, HQ'. lia. }
     lia.
   - pose proof (step_bound c s e m Hc Hh H1 Hcf) as B. rewrite Hs in B. simpl in B. lia.
 Qed.
@@ -316,62 +327,111 @@ Qed.
 (* C13_close_stops, interleaved *)
 
 Definition in_flight (lp : loop) : bool := match lpc lp with PSend _ _ => true | _ => false end.
-Definition pending (s : state) : nat := count in_flight (loops s).
+Definition scan_decided (x : scan) : bool := match sdec x with Some _ => true | None => false end.
+(* what is already decided but not yet written: loops between check and write, replies in flight, scans that
+   have passed their h.closed test *)
+Definition pendingL (s : state) : nat := count in_flight (loops s).
+Definition pendingS (s : state) : nat := count scan_decided (scans s).
+Definition pending (s : state) : nat := (pendingL s + List.length (rxq s) + pendingS s)%nat.
 
 Local Arguments pending : simpl never.
+Local Arguments pendingL : simpl never.
+Local Arguments pendingS : simpl never.
 Local Arguments count : simpl never.
 
-Lemma pending_count s : pending s = count in_flight (loops s).
+Lemma pending_split s : pending s = (pendingL s + List.length (rxq s) + pendingS s)%nat.
 Proof. reflexivity. Qed.
 
-(* once closed: whatever the handler still hands to the connection on its own was decided before
-   (a loop standing between its check and its write), one frame per such loop *)
+Lemma count_set_scan (P : scan -> bool) l j x y :
+  nth_error l j = Some x -> (count P (set_scan j y l) + b2n (P x) = count P l + b2n (P y))%nat.
+Proof. intros H. unfold set_scan. rewrite H. apply count_set_nth. exact H. Qed.
+
+(* the handler's own events and the steps of a Scan: everything but the caller's direct send calls *)
+Definition counts_after_close (e : event) : bool := negb (is_api_send e) || is_scan_step e.
+
+(* once closed: whatever still goes to the connection was decided before, one frame per decision *)
 Lemma closed_step_bound c s e :
-  closed s = true -> is_api_send e = false ->
+  closed s = true -> counts_after_close e = true ->
   (List.length (snd (step c s e)) + pending (fst (step c s e)) <= pending s)%nat.
 Proof.
-  intros Hc Ha. destruct e; try discriminate; simpl; rewrite ?pending_count; simpl; try lia.
-  - unfold start_hunt. destruct (hunt_has _ _); simpl; rewrite ?pending_count; simpl; [lia|].
-    rewrite count_app. simpl. lia.
+  intros Hc Ha. rewrite !pending_split.
+  pose proof (step_rxq c s e) as HQ. pose proof (step_scans c s e) as HS.
+  destruct e as [a| |m0| |i|i|i|p|kr|et b|m1 o|kf|ip|dst ip|ip|dst ip|dst sn tg|dst sn tg| |j|j|ip n| ];
+    try discriminate; unfold pendingL, pendingS; try rewrite HQ; try rewrite HS; simpl.
+  - unfold start_hunt. destruct (hunt_has _ _); simpl; [lia|]. rewrite count_app. simpl. lia.
+  - lia.
+  - lia.
+  - lia.
   - unfold lookup. destruct (nth_error (loops s) i) as [lp|] eqn:Hl; simpl; [|lia].
-    destruct (lpc lp) eqn:Hp; simpl; rewrite ?pending_count; simpl; try lia;
+    destruct (lpc lp) eqn:Hp; simpl; try lia;
       (match goal with |- context [set_pc i ?p (loops s)] =>
          pose proof (count_set_pc in_flight _ _ _ p Hl) as Hcnt end);
       unfold in_flight in *; simpl in Hcnt; rewrite Hp in Hcnt; simpl in Hcnt; lia.
   - unfold check. destruct (nth_error (loops s) i) as [lp|] eqn:Hl; simpl; [|lia].
-    destruct (lpc lp) eqn:Hp; simpl; rewrite ?pending_count; simpl; try lia.
-    rewrite Hc. 
+    destruct (lpc lp) eqn:Hp; simpl; try lia.
+    rewrite Hc.
     (match goal with |- context [set_pc i ?p (loops s)] =>
          pose proof (count_set_pc in_flight _ _ _ p Hl) as Hcnt end).
     unfold in_flight in *. simpl in Hcnt. rewrite Hp in Hcnt.
     destruct found; simpl in Hcnt; lia.
   - unfold send. destruct (nth_error (loops s) i) as [lp|] eqn:Hl; simpl; [|lia].
-    destruct (lpc lp) eqn:Hp; simpl; rewrite ?pending_count; simpl; try lia.
-    destruct (wr s f) as [[s1 o] ok] eqn:Hw. destruct (wr_state _ _ _ _ _ Hw) as [_ [W2 _]]. simpl.
-    rewrite ?pending_count. simpl. rewrite W2.
+    destruct (lpc lp) eqn:Hp; simpl; try lia.
+    destruct (wr s f) as [[s1 o] ok] eqn:Hw. destruct (wr_state _ _ _ _ _ Hw) as [_ [W2 _]]. simpl. rewrite W2.
     assert (Ho : (List.length o <= 1)%nat).
     { destruct (wr_cases s f) as [[E _]|[k [_ E]]]; rewrite E in Hw; inversion Hw; subst; simpl; lia. }
-    destruct cont, ok; simpl;
+    destruct cont; simpl;
       (match goal with |- context [set_pc i ?p (loops s)] =>
          pose proof (count_set_pc in_flight _ _ _ p Hl) as Hcnt end);
       unfold in_flight in *; simpl in Hcnt; rewrite Hp in Hcnt; simpl in Hcnt; lia.
-  - unfold rx_arp. rewrite Hc. simpl. rewrite ?pending_count. lia.
-  - destruct (process_raw_total c s ethertype payload) as [[e H]|[p H]]; rewrite H; simpl; rewrite ?pending_count; [lia|].
-    unfold rx_arp. rewrite Hc. simpl. rewrite ?pending_count. lia.
+  - (* RxArp: a closed handler ignores the packet *)
+    unfold rx_arp. rewrite Hc. simpl. lia.
+  - (* RxReply: the write of a reply in flight *)
+    destruct (rx_reply_spec s kr) as [_ [_ [H2 [_ [_ H6]]]]]. rewrite H2, H6.
+    unfold rx_reply. destruct (nth_error (rxq s) kr) as [f|] eqn:Hk; simpl; [|lia].
+    pose proof (length_remove_nth (rxq s) kr f Hk) as Hlen.
+    destruct (wr_cases s f) as [[E _]|[k0 [_ E]]]; rewrite E; simpl; lia.
+  - (* RxRaw *)
+    destruct (rx_raw_cases c s et b) as [E|[p E]]; simpl in E; rewrite E; simpl; [lia|].
+    unfold rx_arp. rewrite Hc. simpl. lia.
+  - lia.
+  - lia.
+  - (* ScanCheck: closed, so nothing is decided any more *)
+    destruct (scan_check_spec c s j) as [E [_ [H2 _]]]. rewrite E, H2. simpl.
+    unfold pendingS, scan_check. destruct (nth_error (scans s) j) as [[ips d]|] eqn:Hj; simpl; [|lia].
+    destruct ips as [|ip0 r]; simpl; [lia|]. destruct d; simpl; [lia|].
+    destruct ((ip0 =? router_ip c) || (ip0 =? host_ip c)); [|rewrite Hc]; simpl;
+      (match goal with |- context [set_scan j ?y (scans s)] =>
+         pose proof (count_set_scan scan_decided _ _ _ y Hj) as Hcnt end);
+      unfold scan_decided in *; simpl in Hcnt; lia.
+  - (* ScanSend: the request already decided *)
+    destruct (scan_send_spec c s j) as [_ [_ [H2 _]]]. rewrite H2.
+    unfold pendingS, scan_send. destruct (nth_error (scans s) j) as [[ips d]|] eqn:Hj; simpl; [|lia].
+    destruct d as [ip0|]; simpl; [|lia].
+    destruct (wr s (request_to c MAC_BCAST ip0)) as [[s1 o] ok] eqn:Hw.
+    destruct (wr_state2 _ _ _ _ _ Hw) as [_ W6]. simpl. rewrite W6.
+    assert (Ho : (List.length o <= 1)%nat).
+    { destruct (wr_cases s (request_to c MAC_BCAST ip0)) as [[E _]|[k [_ E]]]; rewrite E in Hw; inversion Hw; subst; simpl; lia. }
+    (match goal with |- context [set_scan j ?y (scans s)] =>
+       pose proof (count_set_scan scan_decided _ _ _ y Hj) as Hcnt end).
+    unfold scan_decided in *. simpl in Hcnt. lia.
 Qed.
 
 Fixpoint own_frames (tr : list (state * event * list frame)) : nat :=
   match tr with
   | [] => 0%nat
-  | (_, e, out) :: r => ((if is_api_send e then 0 else List.length out) + own_frames r)%nat
+  | (_, e, out) :: r => ((if counts_after_close e then List.length out else 0) + own_frames r)%nat
   end.
 
-Lemma api_keeps_pending c s e : is_api_send e = true -> pending (fst (step c s e)) = pending s.
+(* the caller's direct send calls decide nothing for later *)
+Lemma api_keeps_pending c s e : counts_after_close e = false -> pending (fst (step c s e)) = pending s.
 Proof.
-  intros Ha. unfold pending. f_equal. destruct e; try discriminate; simpl.
-  - apply wr2_state. - apply wr2_state. - apply wr2_state. - apply wr2_state. - apply wr2_state. - apply wr2_state.
-  - apply (scan_go_spec c (scan_ips c) s).
-  - apply (whois_go_spec c ip (Nat.min tries 3) s).
+  intros Ha. rewrite !pending_split.
+  assert (Hce : core_event e = true) by (destruct e; try discriminate; reflexivity).
+  destruct (step_core c s e Hce) as [_ [HL _]]. pose proof (step_rxq c s e) as HQ. pose proof (step_scans c s e) as HS.
+  unfold pendingL, pendingS. rewrite HL.
+  destruct e; try discriminate; try (rewrite HQ, HS; reflexivity).
+  (* ApiScan: a new scan that has decided nothing yet *)
+  rewrite HQ. simpl. rewrite count_app. simpl. lia.
 Qed.
 
 Theorem close_bound : forall c evs s,
@@ -383,9 +443,9 @@ Proof.
   { pose proof (step_closed_mono c s e Hc) as G. rewrite Hs in G. exact G. }
   specialize (IH s1 Hc1).
   replace (final c (fst (step c s e)) r) with (final c s1 r) by (rewrite Hs; reflexivity).
-  destruct (is_api_send e) eqn:Ha.
-  - pose proof (api_keeps_pending c s e Ha) as G. rewrite Hs in G. simpl in G. lia.
+  destruct (counts_after_close e) eqn:Ha.
   - pose proof (closed_step_bound c s e Hc Ha) as B. rewrite Hs in B. simpl in B. lia.
+  - pose proof (api_keeps_pending c s e Ha) as G. rewrite Hs in G. simpl in G. lia.
 Qed.
 
 (* once closed, a loop's next iteration ends it, silently, whatever others do in between *)
@@ -455,63 +515,54 @@ Proof.
                   exists i a p, loop_at (fst (step c s e)) i a p /\ amac a = m /\ healthy p = true).
   { intros H1 H2. unfold hunted in Hm. rewrite H1 in Hm. destruct (Hcov m Hm) as [i [a [p [Hl H]]]].
     exists i, a, p. split; auto. unfold loop_at. rewrite H2. exact Hl. }
-  destruct e; simpl in *; try (apply Hsame; reflexivity).
-  - (* StartHunt *)
-    unfold start_hunt in *. destruct (hunt_has (amac a) (hunt s)) eqn:Hh; simpl in *; [apply Hsame; reflexivity|].
-    unfold hunted in Hm. simpl in Hm. rewrite hunt_has_app in Hm. apply orb_true_iff in Hm as [Hm|Hm].
-    + destruct (Hcov m Hm) as [i [a0 [p [Hl H]]]]. exists i, a0, p. split; auto.
-      unfold loop_at in *. simpl. apply nth_error_app_l. exact Hl.
-    + exists (List.length (loops s)), a, PTop. split; [|split; [lia|reflexivity]].
-      unfold loop_at. simpl. rewrite nth_error_app2 by lia. rewrite Nat.sub_diag. reflexivity.
-  - (* StopHunt *)
-    unfold hunted in Hm. simpl in Hm.
-    assert (Hm' : hunt_has m (hunt s) = true).
-    { destruct (N.eq_dec m m0) as [->|Hne]; [rewrite hunt_has_del_same in Hm; discriminate|].
-      rewrite hunt_has_del_other in Hm; auto. }
-    destruct (Hcov m Hm') as [i [a0 [p [Hl H]]]]. exists i, a0, p. split; auto.
-  - (* Lookup *)
-    unfold hunted in Hm. destruct (lookup_state s i) as [Hh _]. rewrite Hh in Hm.
-    destruct (Hcov m Hm) as [j [a0 [p [Hl [Ha Hp]]]]].
-    destruct (Nat.eq_dec i j) as [->|Hne].
-    + unfold lookup, loop_at in *. rewrite Hl. simpl.
-      destruct p; try discriminate; simpl; try (exists j, a0; eexists; split; [exact Hl|auto]).
-      * exists j, a0. eexists. split; [apply (set_pc_same _ _ _ _ Hl)|]. split; auto. simpl.
-        destruct (hunt_find (amac a0) (hunt s)) eqn:Hf; auto. apply hunt_find_none in Hf. rewrite Ha in Hf. congruence.
-      * exists j, a0. eexists. split; [apply (set_pc_same _ _ _ _ Hl)|]. split; auto. simpl.
-        destruct (hunt_find (amac a0) (hunt s)) eqn:Hf; auto. apply hunt_find_none in Hf. rewrite Ha in Hf. congruence.
-    + exists j, a0, p. split; auto. unfold loop_at in *. apply (step_loop_kept c s (Lookup i)); auto.
-      simpl. apply Nat.eqb_neq. auto.
-  - (* Check *)
-    unfold hunted in Hm. destruct (check_state c s i) as [Hh _]. rewrite Hh in Hm.
-    destruct (Hcov m Hm) as [j [a0 [p [Hl [Ha Hp]]]]].
-    destruct (Nat.eq_dec i j) as [->|Hne].
-    + unfold check, loop_at in *. rewrite Hl. simpl.
-      destruct p; try discriminate; simpl; try (exists j, a0; eexists; split; [exact Hl|auto]).
-      destruct found as [t|]; try discriminate. rewrite Hc.
-      exists j, a0. eexists. split; [apply (set_pc_same _ _ _ _ Hl)|]. auto.
-    + exists j, a0, p. split; auto. unfold loop_at in *. apply (step_loop_kept c s (Check i)); auto.
-      simpl. apply Nat.eqb_neq. auto.
-  - (* Send *)
-    unfold hunted in Hm. destruct (send_state s i) as [Hh _]. rewrite Hh in Hm.
-    destruct (Hcov m Hm) as [j [a0 [p [Hl [Ha Hp]]]]].
-    destruct (Nat.eq_dec i j) as [->|Hne].
-    + destruct p; try discriminate; try (unfold send, loop_at in *; rewrite Hl; simpl; exists j, a0; eexists; split; [exact Hl|auto]).
-      destruct cont; try discriminate.
-      destruct (send_step s j a0 f true c Hl) as [s' [E [L _]]]. simpl in E. rewrite E. simpl.
-      exists j, a0, PWait. auto.
-    + exists j, a0, p. split; auto. unfold loop_at in *. apply (step_loop_kept c s (Send i)); auto.
-      simpl. apply Nat.eqb_neq. auto.
-  - destruct (rx_arp_state c s p) as [H1 [H2 _]]. apply Hsame; auto.
-  - destruct (rx_raw_cases c s ethertype payload) as [E|[p E]]; simpl in E; rewrite E in *; [apply Hsame; reflexivity|].
-    destruct (rx_arp_state c s p) as [H1 [H2 _]]. apply Hsame; auto.
-  - destruct (wr2_state s (request_to c MAC_BCAST ip)) as [H1 [H2 _]]. apply Hsame; auto.
-  - destruct (wr2_state s (request_to c dst ip)) as [H1 [H2 _]]. apply Hsame; auto.
-  - destruct (wr2_state s (probe_frame c ip)) as [H1 [H2 _]]. apply Hsame; auto.
-  - destruct (wr2_state s (announce_ip c dst ip)) as [H1 [H2 _]]. apply Hsame; auto.
-  - destruct (wr2_state s (request_raw dst sender target)) as [H1 [H2 _]]. apply Hsame; auto.
-  - destruct (wr2_state s (reply_raw dst sender target)) as [H1 [H2 _]]. apply Hsame; auto.
-  - destruct (scan_go_spec c (scan_ips c) s) as [_ [H1 [H2 _]]]. apply Hsame; auto.
-  - destruct (whois_go_spec c ip (Nat.min tries 3) s) as [_ [H1 [H2 _]]]. apply Hsame; auto.
+  destruct (core_event e) eqn:Hce.
+  - destruct (step_core c s e Hce) as [H1 [H2 _]]. apply Hsame; auto.
+  - destruct e; try discriminate; simpl in *; try (apply Hsame; reflexivity).
+    + (* StartHunt *)
+      unfold start_hunt in *. destruct (hunt_has (amac a) (hunt s)) eqn:Hh; simpl in *; [apply Hsame; reflexivity|].
+      unfold hunted in Hm. simpl in Hm. rewrite hunt_has_app in Hm. apply orb_true_iff in Hm as [Hm|Hm].
+      * destruct (Hcov m Hm) as [i [a0 [p [Hl H]]]]. exists i, a0, p. split; auto.
+        unfold loop_at in *. simpl. apply nth_error_app_l. exact Hl.
+      * exists (List.length (loops s)), a, PTop. split; [|split; [lia|reflexivity]].
+        unfold loop_at. simpl. rewrite nth_error_app2 by lia. rewrite Nat.sub_diag. reflexivity.
+    + (* StopHunt *)
+      unfold hunted in Hm. simpl in Hm.
+      assert (Hm' : hunt_has m (hunt s) = true).
+      { destruct (N.eq_dec m m0) as [->|Hne]; [rewrite hunt_has_del_same in Hm; discriminate|].
+        rewrite hunt_has_del_other in Hm; auto. }
+      destruct (Hcov m Hm') as [i [a0 [p [Hl H]]]]. exists i, a0, p. split; auto.
+    + (* Lookup *)
+      unfold hunted in Hm. destruct (lookup_state s i) as [Hh _]. rewrite Hh in Hm.
+      destruct (Hcov m Hm) as [j [a0 [p [Hl [Ha Hp]]]]].
+      destruct (Nat.eq_dec i j) as [->|Hne].
+      * unfold lookup, loop_at in *. rewrite Hl. simpl.
+        destruct p; try discriminate; simpl; try (exists j, a0; eexists; split; [exact Hl|auto]).
+        -- exists j, a0. eexists. split; [apply (set_pc_same _ _ _ _ Hl)|]. split; auto. simpl.
+          destruct (hunt_find (amac a0) (hunt s)) eqn:Hf; auto. apply hunt_find_none in Hf. rewrite Ha in Hf. congruence.
+        -- exists j, a0. eexists. split; [apply (set_pc_same _ _ _ _ Hl)|]. split; auto. simpl.
+          destruct (hunt_find (amac a0) (hunt s)) eqn:Hf; auto. apply hunt_find_none in Hf. rewrite Ha in Hf. congruence.
+      * exists j, a0, p. split; auto. unfold loop_at in *. apply (step_loop_kept c s (Lookup i)); auto.
+        simpl. apply Nat.eqb_neq. auto.
+    + (* Check *)
+      unfold hunted in Hm. destruct (check_state c s i) as [Hh _]. rewrite Hh in Hm.
+      destruct (Hcov m Hm) as [j [a0 [p [Hl [Ha Hp]]]]].
+      destruct (Nat.eq_dec i j) as [->|Hne].
+      * unfold check, loop_at in *. rewrite Hl. simpl.
+        destruct p; try discriminate; simpl; try (exists j, a0; eexists; split; [exact Hl|auto]).
+        destruct found as [t|]; try discriminate. rewrite Hc.
+        exists j, a0. eexists. split; [apply (set_pc_same _ _ _ _ Hl)|]. auto.
+      * exists j, a0, p. split; auto. unfold loop_at in *. apply (step_loop_kept c s (Check i)); auto.
+        simpl. apply Nat.eqb_neq. auto.
+    + (* Send *)
+      unfold hunted in Hm. destruct (send_state s i) as [Hh _]. rewrite Hh in Hm.
+      destruct (Hcov m Hm) as [j [a0 [p [Hl [Ha Hp]]]]].
+      destruct (Nat.eq_dec i j) as [->|Hne].
+      * destruct p; try discriminate; try (unfold send, loop_at in *; rewrite Hl; simpl; exists j, a0; eexists; split; [exact Hl|auto]).
+        destruct cont; try discriminate.
+        destruct (send_step s j a0 f true c Hl) as [s' [E [L _]]]. simpl in E. rewrite E. simpl.
+        exists j, a0, PWait. auto.
+      * exists j, a0, p. split; auto. unfold loop_at in *. apply (step_loop_kept c s (Send i)); auto.
+        simpl. apply Nat.eqb_neq. auto.
 Qed.
 
 Theorem hunted_has_loop : forall c evs m,
